@@ -216,3 +216,35 @@ def candidates(kinds=('repo',), deriv=None):
     if deriv is not None:
         pool.append(deriv)
     return st.one_of(*pool)
+
+
+@st.composite
+def derived_program(draw, version):
+    """G-DERIV as a candidate source: a random derivation of file_input of the grammar of ``version``,
+    rendered with generated spellings/layout (validity is decided by the reference afterwards)."""
+    from . import deriv as D
+    m = D.model(version)
+    ch = D.Choices(draw(st.lists(st.integers(0, 255), min_size=10, max_size=120)))
+    tree = m.derive('file_input', ch, draw(st.integers(3, 8)))
+    layout = draw(st.one_of(st.just([]), st.lists(st.integers(0, 255), min_size=1, max_size=60)))
+    text, _ = D.Renderer(m, D.Choices(layout), plain=not layout).render(D.terminals(tree))
+    # make the statement context friendlier to the compiler: wrap in an async function half of the time
+    if draw(st.booleans()):
+        from ..common import ref_split_lines
+        text = 'async def _w():\n' + ''.join('    ' + l if l.strip() else l for l in ref_split_lines(text, True)) + '\n'
+    return text
+
+
+def versioned_candidates(kinds=('repo',)):
+    """{'version': V, 'code': ...} with grammar-derived programs of V's own grammar in the mix."""
+    base = candidates(kinds)
+
+    @st.composite
+    def gen(draw):
+        v = draw(T.version())
+        if draw(st.integers(0, 4)) == 0:
+            code = draw(derived_program(v))
+        else:
+            code = draw(base)
+        return {'version': v, 'code': code}
+    return gen()
